@@ -758,6 +758,153 @@ pub fn growth_schedules(depth: usize) -> Report {
     rep
 }
 
+/// weight tables behind the C interface as objects with histories: every sequence of at most `depth` calls of
+/// wmc_param_*_set_weight over the labels 0..3 (the value depends on the step, so a re-weighted label changes),
+/// on fresh tables of the three kinds in lock step with native tables. After the last call the getters of every
+/// label that was set are compared and, when the labels 0, 1, 2 all carry weights, the real, complex and
+/// polynomial counts of five diagrams over three variables are compared with the brute-force sum over the truth
+/// table. Setting weights in descending or mixed label order, setting one twice, and setting a label beyond the
+/// diagram's variables are all in-domain.
+pub fn weight_table_histories(depth: usize) -> Report {
+    let mut rep = Report::default();
+    rep.exhaustive = true;
+    let nlab = 4usize;
+    let mut seq: Vec<usize> = vec![];
+    fn next(seq: &mut Vec<usize>, depth: usize, nact: usize) -> bool {
+        if seq.len() < depth {
+            seq.push(0);
+            return true;
+        }
+        while let Some(last) = seq.pop() {
+            if last + 1 < nact {
+                seq.push(last + 1);
+                return true;
+            }
+        }
+        false
+    }
+    // dyadic weights, exact in f64; low + high need not be 1 (bdd_wmc of these diagrams is compared with the
+    // native count of the same diagram, and with brute force where the weights are normalised)
+    let val = |step: usize, l: usize| -> (f64, f64) {
+        let k = 1 + (step * 3 + l * 5) % 7;
+        (k as f64 / 8.0, 1.0 - k as f64 / 8.0)
+    };
+    let funcs: [u64; 5] = [0xca, 0x96, 0xe8, 0x80, 0x7f];
+    while next(&mut seq, depth, nlab) {
+        if seq.len() < depth && !(seq.len() >= 3) {
+            continue;
+        }
+        let seqc = seq.clone();
+        let r = guarded(|| unsafe {
+            rsdd::verif::set_table_capacity(8);
+            let mgr = mk_bdd_manager_default_order(3);
+            rsdd::verif::set_table_capacity(0);
+            let xs = [bdd_var(mgr, 0, true), bdd_var(mgr, 1, true), bdd_var(mgr, 2, true)];
+            let (cf, cc, cp) = (new_wmc_params_f64(), new_wmc_params_complex(), new_wmc_params_poly());
+            let mut nf: WmcParams<RealSemiring> = WmcParams::default();
+            let mut nc: WmcParams<Complex> = WmcParams::default();
+            let mut np: WmcParams<Polynomial<RealSemiring>> = WmcParams::default();
+            let mut cur: Vec<Option<(f64, f64)>> = vec![None; nlab];
+            let mut bad: Option<String> = None;
+            for (step, &l) in seqc.iter().enumerate() {
+                let (lo, hi) = val(step, l);
+                wmc_param_f64_set_weight(cf, l as u64, lo, hi);
+                nf.set_weight(VarLabel::new(l as u64), RealSemiring(lo), RealSemiring(hi));
+                let (cl, ch) = (Complex { re: lo, im: hi }, Complex { re: hi, im: -lo });
+                wmc_param_complex_set_weight(cc, l as u64, cl, ch);
+                nc.set_weight(VarLabel::new(l as u64), cl, ch);
+                let (pl, ph) = (vec![lo, 1.0], vec![hi, -1.0]);
+                wmc_param_poly_set_weight(cp, l as u64, pl.as_ptr(), pl.len(), ph.as_ptr(), ph.len());
+                np.set_weight(VarLabel::new(l as u64), poly_of(&pl), poly_of(&ph));
+                cur[l] = Some((lo, hi));
+            }
+            // getters of every label that carries a weight
+            for l in 0..nlab {
+                if let Some((lo, hi)) = cur[l] {
+                    let w = wmc_param_f64_var_weight(cf, l as u64);
+                    let (a, b) = (weight_f64_lo(w), weight_f64_hi(w));
+                    if a != lo || b != hi {
+                        bad = Some(format!("wmc_param_f64_var_weight({}) = ({}, {}), the last weight set for that label is ({}, {})", l, a, b, lo, hi));
+                        break;
+                    }
+                    let w = wmc_param_complex_var_weight(cc, l as u64);
+                    let (a, b) = (weight_complex_lo(w), weight_complex_hi(w));
+                    if a.re != lo || a.im != hi || b.re != hi || b.im != -lo {
+                        bad = Some(format!("wmc_param_complex_var_weight({}) = ({:?}, {:?}), the last weight set for that label is ({}+{}i, {}-{}i)", l, a, b, lo, hi, hi, lo));
+                        break;
+                    }
+                }
+            }
+            if bad.is_none() && cur[0].is_some() && cur[1].is_some() && cur[2].is_some() {
+                for &t in funcs.iter() {
+                    // the function through the C interface: Shannon expansion with bdd_ite
+                    let f = [bdd_false(mgr), bdd_true(mgr)];
+                    let leaf = |bit: u64| if bit == 1 { f[1] } else { f[0] };
+                    let mut lvl: Vec<CB> = (0..8).map(|a| leaf((t >> a) & 1)).collect();
+                    for v in (0..3).rev() {
+                        // assignments are indexed with x0 as the lowest bit: fold the highest variable first
+                        let half = lvl.len() / 2;
+                        lvl = (0..half).map(|a| bdd_ite(mgr, xs[v], lvl[a + half], lvl[a])).collect();
+                    }
+                    let d = lvl[0];
+                    // brute force over the truth table (normalised weights: low + high = 1 on every label)
+                    let mut want = 0.0;
+                    for a in 0..8usize {
+                        if (t >> a) & 1 == 1 {
+                            let mut p = 1.0;
+                            for v in 0..3 {
+                                let (lo, hi) = cur[v].unwrap();
+                                p *= if (a >> v) & 1 == 1 { hi } else { lo };
+                            }
+                            want += p;
+                        }
+                    }
+                    let got = bdd_wmc(d, cf);
+                    if got != want {
+                        bad = Some(format!("bdd_wmc of {:#x} = {}, the sum over its models under the weights last set is {}", t, got, want));
+                        break;
+                    }
+                    // complex and polynomial counts against the native fold of the same diagram with the native table
+                    let nd: BddPtr = *d;
+                    let (gc, wc) = (bdd_wmc_complex(d, cc), nd.unsmoothed_wmc(&nc));
+                    if gc.re != wc.re || gc.im != wc.im {
+                        bad = Some(format!("bdd_wmc_complex of {:#x} = {:?}, the native count with the same weights is {:?}", t, gc, wc));
+                        break;
+                    }
+                    let gp = bdd_wmc_poly(d, cp);
+                    let wp = nd.unsmoothed_wmc(&np);
+                    let mut buf = vec![0.0f64; 40];
+                    let k = polynomial_get_coeffs(gp, buf.as_mut_ptr(), 40);
+                    let gotp: Vec<f64> = buf[..k.min(40)].to_vec();
+                    let wantp: Vec<f64> = wp.coefficients[..wp.len].iter().map(|x| x.0).collect();
+                    let m = gotp.len().max(wantp.len());
+                    if (0..m).any(|i| gotp.get(i).cloned().unwrap_or(0.0) != wantp.get(i).cloned().unwrap_or(0.0)) {
+                        bad = Some(format!("bdd_wmc_poly of {:#x} = {:?}, the native count with the same weights is {:?}", t, gotp, wantp));
+                        break;
+                    }
+                }
+            }
+            free_bdd_manager(mgr);
+            bad
+        });
+        rep.traces += 1;
+        rep.transitions += seq.len() as u64;
+        match r {
+            Ok(None) => {}
+            Ok(Some(w)) => {
+                rep.violation("ffi:weight-table", format!("set_weight on the labels {:?} in this order (value of step s on label l: low = (1 + (3s + 5l) mod 7) / 8): {}", seq, w), json!({"kind": "ffi_weights", "depth": depth}));
+                break;
+            }
+            Err(p) => {
+                rep.violation("ffi:panic", format!("set_weight history {:?} panicked: {}", seq, p), json!({"kind": "ffi_weights", "depth": depth}));
+                break;
+            }
+        }
+    }
+    rep.states = rep.traces;
+    rep
+}
+
 /// two managers alive on one thread: every sequence of at most `depth` calls over {a handle-producing call
 /// on manager A, one on manager B, bdd_high / bdd_low of a B diagram (these take no manager argument), a new
 /// conjunction in B, freeing A}; after every call every live B handle is read through calls that produce no
@@ -903,6 +1050,13 @@ pub fn run(ctx: &Ctx) -> Report {
         rep.bound("growth_schedules", json!({"initial_variables": 2, "pool": ["x0", "!x0", "x0|x1", "x0 xor x1"], "alphabet": "count of a pool member, bdd_new_label, bdd_new_var(true), bdd_new_var(false)", "max_calls": ctx.tier.pick(5, 6)}));
         rep.merge(g);
     }
+    // weight tables with histories
+    if !crate::core::disabled("weighthist") {
+        let g = weight_table_histories(ctx.tier.pick(4, 5));
+        rep.add_extra("weight_table_histories", g.traces);
+        rep.bound("weight_table_histories", json!({"labels": 4, "max_calls": ctx.tier.pick(4, 5), "tables": "f64, complex, polynomial in lock step with native tables", "checks": "getters of every set label; real count against brute force, complex and polynomial counts against the native fold, for five diagrams over three variables"}));
+        rep.merge(g);
+    }
     // two managers on one thread
     if !crate::core::disabled("twomgr") {
         let g = two_managers(ctx.tier.pick(5, 6));
@@ -946,6 +1100,7 @@ pub fn replay(ctx: &Ctx, case: &Value) -> Report {
         Some("ffi_cnf") => check_cnf_path(&cnf_from_json(&case["cnf"]), &mut rep),
         Some("ffi_wide") => rep.merge(wide_counts(case["n"].as_u64().unwrap_or(20) as usize)),
         Some("ffi_two_managers") => rep.merge(two_managers(case["depth"].as_u64().unwrap_or(5) as usize)),
+        Some("ffi_weights") => rep.merge(weight_table_histories(case["depth"].as_u64().unwrap_or(4) as usize)),
         Some("ffi_growth") => rep.merge(growth_schedules(case["depth"].as_u64().unwrap_or(5) as usize)),
         _ => {
             let n = case["n"].as_u64().unwrap_or(3) as usize;
